@@ -715,7 +715,48 @@ def frombin_near_pow10(rng):
     return nm, ((rng.randint(0, 1) << (eb + fb)) | b)
 
 
+def frombin_exact(rng):
+    """binary floats whose decimal expansion is short: m * 5^q * 2^k (an integer with a short significand times a power of ten, or a short
+    dyadic fraction c / 2^a) - the exact / inexact decision and the preferred quantum of the exact cases; significands with 52, 53, 1 .. bits"""
+    import struct
+    for _ in range(50):
+        wide = rng.random() < 0.6
+        mant, emin, emax, nm, fmt, ifmt = (53, -1074, 971, 'f64', '>d', '>Q') if wide else (24, -149, 104, 'f32', '>f', '>I')
+        q = rng.randint(0, 22 if wide else 10); p5 = 5 ** q
+        mb = mant - p5.bit_length()
+        if mb < 1: continue
+        m = rng.choice([1, 3, rng.getrandbits(rng.randint(1, mb)) | 1, (1 << mb) - 1, (1 << (mb - 1)) | 1, (1 << mb) - 3])
+        sig = m * p5
+        if sig.bit_length() > mant: continue
+        k = rng.choice([rng.randint(0, 120), rng.randint(-60, 60), q + rng.randint(0, 80), rng.randint(emin, emax)])
+        k = max(emin, min(emax - (sig.bit_length() - 1 if False else 0), k))
+        try: v = float(sig) * 2.0 ** k if abs(k) < 1000 else float(sig) * 2.0 ** (k // 2) * 2.0 ** (k - k // 2)
+        except OverflowError: continue
+        try: b = struct.unpack(ifmt, struct.pack(fmt, v))[0]
+        except OverflowError: continue
+        if struct.unpack(fmt, struct.pack(ifmt, b))[0] != v: continue      # not exactly representable in the narrow format
+        return nm, (rng.randint(0, 1) << (63 if wide else 31)) | b
+    return 'f64', 0x4700F0CF064DD592
+
+
+BIN_SPECIALS = {'f32': [0x00000000, 0x80000000, 0x7f800000, 0xff800000, 0x7fc00000, 0xffc00000, 0x7f800001, 0xff800001, 0x7fffffff, 0x00000001, 0x80000001, 0x007fffff,
+                        0x00800000, 0x7f7fffff, 0xff7fffff, 0x3f800000, 0xbf800000, 0x00000002, 0x00000003, 0x7fa00000],
+                'f64': [0x0000000000000000, 0x8000000000000000, 0x7ff0000000000000, 0xfff0000000000000, 0x7ff8000000000000, 0xfff8000000000000, 0x7ff0000000000001,
+                        0xfff0000000000001, 0x7fffffffffffffff, 0x0000000000000001, 0x8000000000000001, 0x000fffffffffffff, 0x0010000000000000, 0x7fefffffffffffff,
+                        0xffefffffffffffff, 0x3ff0000000000000, 0xbff0000000000000, 0x0000000000000002, 0x0000000000000003, 0x7ff4000000000000]}
+
+
 def gen_frombin(rng, n):
+    for nm in ('f32', 'f64'):          # the special patterns through both entry forms, every mode (a fixed enumeration: 400 cases)
+        for b in BIN_SPECIALS[nm]:
+            for md in MODES:
+                for op in ('from_' + nm, 'from' + nm + '_t'):
+                    yield line(op, md, 0, '%x' % b)
+    n = max(0, n - 400)
+    for _ in range(n // 12):
+        nm, bits = frombin_exact(rng)
+        yield line(rng.choice(['from_' + nm] * 4 + ['from' + nm + '_t']), rng.choice(MODES), status_in(rng), '%x' % bits)
+    n -= n // 12
     for _ in range(n // 5):
         nm, bits = frombin_near_pow10(rng)
         yield line(rng.choice(['from_' + nm] * 4 + ['from' + nm + '_t']), rng.choice(MODES), status_in(rng), '%x' % bits)
@@ -1044,8 +1085,12 @@ def gen_fmt(rng, n):
         c = coeff(rng, rng.randint(1, 34))
         if rng.random() < 0.5:
             pos = rng.randint(0, 18); v = rng.randint(0, 63); c = (c & ~(63 << (6 * pos))) | (v << (6 * pos))
-        else:
+        elif rng.random() < 0.6:
             pos = rng.randint(0, 11); g = rng.randint(0, 999); c = (c // 1000 ** (pos + 1)) * 1000 ** (pos + 1) + g * 1000 ** pos + c % (1000 ** pos)
+        else:    # 9-digit and 6-digit blocks at the top / bottom of their range (reciprocal-multiplication digit splitting: quotient estimates one off)
+            w = rng.choice([9, 6, 18]); pos = rng.randint(0, 34 // w); B = 10 ** w
+            g = rng.choice([B - 1 - rng.randint(0, B // 100), rng.randint(0, B // 100), rng.randint(0, 999) * (B // 1000) + (B // 1000 - 1 - rng.randint(0, B // 100000))])
+            c = (c // B ** (pos + 1)) * B ** (pos + 1) + g * B ** pos + c % (B ** pos)
         e = expo(rng)
         if rng.random() < 0.3:   # exponents whose decimal spelling is on a digit-count / digit-group boundary
             e = rng.choice([1, -1]) * (rng.choice([1000, 100, 10]) * rng.randint(1, 9) + rng.choice([0, 0, 0, -1, 1])); e = max(QMIN, min(QMAX, e))
@@ -1226,8 +1271,11 @@ def gen_all_ops_status(rng, n):
     """C14: every flag-taking operation with all 64 incoming status values (quick: 6 per case)"""
     fams = [gen_addsub, gen_mul, gen_div, gen_sqrt, gen_fma, gen_rint, gen_toint, gen_quantize, gen_rem, gen_scaleb, gen_logb, gen_next, gen_minmax, gen_frombin, gen_parse, gen_cmp,
             gen_fdim, gen_consts, gen_quantum_queries, gen_nan, gen_status_exact, gen_status_exact, gen_status_exact]
-    per = max(1, n // (len(fams) * 6))
+    # weights: the to-integer family is 44 routines with half a dozen flag-raising sites each, round-to-integral 7; the binary conversions are slow to judge
+    weight = {gen_toint: 8, gen_rint: 3, gen_frombin: 0.5, gen_consts: 0.2, gen_next: 2, gen_quantize: 2, gen_scaleb: 2, gen_addsub: 2, gen_fma: 2}
+    tot = sum(weight.get(f, 1) for f in fams)
     for f in fams:
+        per = max(1, int(n * weight.get(f, 1) / (tot * 6)))
         for l in f(rng, per):
             t = l.split()
             for st in [0, 0x3f, 0x20, 0x10] + [rng.getrandbits(6), rng.getrandbits(6)]:
